@@ -4,7 +4,7 @@
    implementation (Model/Oracle2.v).  ./vp ties implementation = Step = SubjK on every history run. *)
 From Coq Require Import List ZArith Bool Arith.
 From RX Require Import Val Syntax Step Oracle Oracle2 SubjK.
-From RXP Require Import SubjKRef.
+From RXP Require Import SubjKRef SubjKReplay.
 Import ListNotations.
 
 (* Plain Subject, EVERY call history (any number of observers, each subscribing once; any values; any
@@ -32,6 +32,23 @@ Theorem C10_replay_history_complete :
 Proof. exact replay_items_are_pushed. Qed.
 Check C10_replay_history_complete : forall script, sk_items (sk_run KReplay None script) = pushed script.
 Print Assumptions C10_replay_history_complete.
+
+(* ReplaySubject, EVERY call history that does not use the subject after its own terminal (any number of observers,
+   each subscribing once; subscriptions after the terminal, repeated unsubscription): every observer's log is exactly
+   the reference machine's - the whole history so far in order, then the stored terminal or the live stream, each item
+   once - and the inner Subject holds exactly the registered observers (none after a terminal). *)
+Theorem C10_replay_refines_reference :
+  forall script, plain_history script = true -> NoDup (sub_handles script) -> emits_after_terminal false script = false ->
+  let s := sk_run KReplay None script in
+  let r := fold_left (sref_step KReplay) script (sref0 None) in
+  (forall k, sk_logs s k = r_logs r k) /\ map snd (sk_obs s) = r_reg r /\ sk_items s = r_items r /\ r_term r = stored_term s.
+Proof. exact replay_refines_reference. Qed.
+Check C10_replay_refines_reference :
+  forall script, plain_history script = true -> NoDup (sub_handles script) -> emits_after_terminal false script = false ->
+  let s := sk_run KReplay None script in
+  let r := fold_left (sref_step KReplay) script (sref0 None) in
+  (forall k, sk_logs s k = r_logs r k) /\ map snd (sk_obs s) = r_reg r /\ sk_items s = r_items r /\ r_term r = stored_term s.
+Print Assumptions C10_replay_refines_reference.
 
 (* BehaviorSubject: after ANY history without a terminal the cell handed to a new subscriber holds the
    latest value pushed (the initial one if none). *)
@@ -65,4 +82,9 @@ Proof. vm_compute. repeat split. Qed.
 Example C10_example_async :
   let s := sk_run KAsync None c10_hist in
   sk_logs s 0 = [] /\ sk_logs s 1 = [Nx (VInt 3); Co] /\ sk_logs s 2 = [] /\ sk_obs s = [(3, 2)].
+Proof. vm_compute. repeat split. Qed.
+
+(* the hypotheses of C10_replay_refines_reference are met by c10_hist *)
+Example C10_example_replay_hypotheses :
+  plain_history c10_hist = true /\ emits_after_terminal false c10_hist = false /\ sub_handles c10_hist = [0; 1; 2].
 Proof. vm_compute. repeat split. Qed.
